@@ -16,8 +16,10 @@ import itertools
 import json
 import os
 import re
+import shutil
 import subprocess
 import sys
+import tempfile
 
 from mc import core, env
 from mc.env import error
@@ -725,4 +727,104 @@ class ClassInstances(object):
         return repr(sorted(seen.items()))[:200], list(dedup.items()), 18
 
 
-FAMILIES = [Histories(), HashSeeds(), OptionHistories(), Routes(), ClassInstances()]
+class FailingReaders(object):
+    name = 'histories-over-readers-that-fail'
+    describe = ('ONE compiler whose sources are real readers that cannot serve: a strict ZipReader over a missing / a damaged archive, '
+                'a strict FileReader over a missing directory, a CallbackReader whose callback finds nothing - alone, or in front of '
+                'a source that holds one of the modules; every sequence of <=3 requests over a held module, an importer of a module '
+                'nobody holds and two absent names: the statuses of a request - class, text and module name of the error included - '
+                'are those a fresh compiler returns for it, and statuses handed out earlier do not change afterwards')
+
+    SOURCES = ['zip-missing', 'zip-damaged', 'dir-missing', 'callback-empty']
+    NAMES = ['HELD-MIB', 'IMPORTER-MIB', 'NOPE-MIB', 'OTHER-MIB']
+    TEXTS = {'HELD-MIB': 'HELD-MIB DEFINITIONS ::= BEGIN\nIMPORTS enterprises FROM SNMPv2-SMI;\nheld OBJECT IDENTIFIER ::= { enterprises 5 }\nEND\n',
+             'IMPORTER-MIB': ('IMPORTER-MIB DEFINITIONS ::= BEGIN\nIMPORTS lost FROM LOST-MIB;\nimp OBJECT IDENTIFIER ::= { lost 5 }\nEND\n')}
+
+    def blocks(self, tier):
+        return [{'src': s, 'backed': b} for s in self.SOURCES for b in (0, 1)]
+
+    def cases(self, block, tier):
+        for ln in (2, 3):
+            for seq in itertools.product(range(len(self.NAMES)), repeat=ln):
+                yield dict(block, seq=list(seq))
+
+    def make(self, case, root):
+        from pysmi.reader import ZipReader, FileReader, CallbackReader
+        kind = case['src']
+        if kind == 'zip-missing':
+            r = ZipReader(os.path.join(root, 'nowhere.zip'), ignoreErrors=False)
+        elif kind == 'zip-damaged':
+            with open(os.path.join(root, 'damaged.zip'), 'wb') as f:
+                f.write(b'PK\x03\x04 this is no archive')
+            r = ZipReader(os.path.join(root, 'damaged.zip'), ignoreErrors=False)
+        elif kind == 'dir-missing':
+            r = FileReader(os.path.join(root, 'nowhere'), ignoreErrors=False)
+        else:
+            r = CallbackReader(lambda name, ctx: '')
+        # (the parser is not the subject here: one per process, its lexer rewound)
+        parser = env.shared_parser(DIALECT)
+        parser.reset()
+        comp = env.MibCompiler(parser, env.make_codegen('json'), env.CaptureWriter())
+        comp.addSearchers(env.StubSearcher(*env.BASE_NAMES))
+        texts = env.base_texts()
+        if case['backed']:
+            texts.update(self.TEXTS)
+        comp.addSources(r, env.DictReader(texts))
+        return comp
+
+    @staticmethod
+    def obs(res):
+        out = {}
+        for k, st in res.items():
+            e = getattr(st, 'error', None)
+            out[k] = (str(st), type(e).__name__, re.sub(r' at 0x[0-9a-f]+|/[^ ]*/mcC12[^/ ]*', '', str(getattr(e, 'msg', ''))),
+                      getattr(e, 'mibname', None) if e is not None else None)
+        return out
+
+    def run_case(self, case):
+        base = os.environ.get('VERIF_TMP') or ('/dev/shm' if os.path.isdir('/dev/shm') else None)
+        root = tempfile.mkdtemp(prefix='mcC12', dir=base)
+        try:
+            vs = []
+            comp = self.make(case, root)
+            handed = []
+            for pos, ni in enumerate(case['seq']):
+                name = self.NAMES[ni]
+                try:
+                    res = comp.compile(name, ignoreErrors=True)
+                    got = self.obs(res)
+                except Exception as exc:
+                    res, got = None, ('escaped', type(exc).__name__)
+                try:
+                    want = self.obs(self.make(case, root).compile(name, ignoreErrors=True))
+                except Exception as exc:
+                    want = ('escaped', type(exc).__name__)
+                sig = 'C12|failing-readers|%s%s' % (case['src'], '+backed' if case['backed'] else '')
+                if got != want:
+                    vs.append(('%s|request-%d-differs-from-a-fresh-compiler' % (sig, pos + 1),
+                               'sequence %r: request %s gives %r, on a fresh compiler %r' % ([self.NAMES[i] for i in case['seq']], name, got, want)))
+                handed.append((res, got))
+            for pos, (res, got) in enumerate(handed):
+                if res is not None and self.obs(res) != got:
+                    vs.append(('%s|statuses-handed-out-earlier-changed' % sig,
+                               'sequence %r: what request %d returned read %r then, %r now' % (
+                                   [self.NAMES[i] for i in case['seq']], pos + 1, got, self.obs(res))))
+            dedup = {}
+            for sg, d in vs:
+                dedup.setdefault(sg, d)
+            return repr(handed[-1][1])[:300], list(dedup.items()), 2 * len(case['seq'])
+        finally:
+            shutil.rmtree(root, ignore_errors=True)
+
+
+def _shared_cache_directory():
+    from mc.checks import C17
+
+    class SharedCacheDirectory(C17.SharedCacheDirectory):
+        """What a parser yields does not depend on which parsers were built over the same cache directory before it."""
+        prefix = 'C12'
+        name = 'dialects-over-one-cache-directory'
+    return SharedCacheDirectory()
+
+
+FAMILIES = [Histories(), HashSeeds(), OptionHistories(), Routes(), ClassInstances(), FailingReaders(), _shared_cache_directory()]
